@@ -29,6 +29,20 @@ def which(regs, byte_addr):
     return [i for i, (o, k) in enumerate(regs) if o <= wa < o + (1 << k)]
 
 
+def data_before_address_full(mags, errs):
+    k0 = errs[0]["kind"]
+    if not (k0.startswith("w-") or k0 in ("request-never-answered", "handshake-count-differs-between-master-and-slave-side")):
+        return None
+    for m in mags:
+        # index of the first W beat of every write burst in the offer list
+        wi = 0
+        for k, t in enumerate(m.writes):
+            if wi < len(m.offered["w"]) and (k >= len(m.offered["aw"]) or m.offered["w"][wi] < m.offered["aw"][k]):
+                return "w-accepted-before-its-aw(routed-by-idle-aw-address)"
+            wi += len(t["beats"])
+    return None
+
+
 def run_case(case):
     from props.c08 import LockMonitor, class_params
     rng = rng_for(case["seed"])
@@ -173,7 +187,7 @@ def run_case(case):
         errs += lm.viol[:1]
     root = None
     if errs:
-        from props.c08 import root_cause
+        from props.c08 import root_cause, data_before_address
         s_w = []
         for s in sags:
             bursts, cur = [], []
@@ -185,7 +199,7 @@ def run_case(case):
             if cur:
                 bursts.append(cur)
             s_w += [(bu[0][0], bu[0][1] >> 28, (bu[0][1] >> 16) & 63) for bu in bursts]
-        root = root_cause([[(c, t[0]) for c, t in m.log["aw"]] for m in mags], [[e[0] for e in m.log["b"]] for m in mags],
+        root = data_before_address_full(mags, errs) or root_cause([[(c, t[0]) for c, t in m.log["aw"]] for m in mags], [[e[0] for e in m.log["b"]] for m in mags],
                           [[(c, t[0]) for c, t in m.log["ar"]] for m in mags], [[e[0] for e in m.log["r"] if e[3]] for m in mags],
                           s_w, lambda a: tuple(which(regs, a)))
     return {"errs": errs[:4], "nerr": len(errs), "root": root, "b": b_ret, "r": len([1 for m in mags for _ in m.r_bursts]), "w_paired": w_paired,
